@@ -194,7 +194,7 @@ MUTANTS = {
                 "                setattr(obj_copy, k, v)\n"},
         {"name": "initialised_style_shared", "kind": "sub", "file": BG,
          "old": "            obj_copy.style.label = label\n",
-         "new": "            obj_copy.style.label = label\n            obj_copy.style.path = self.style.path\n"},
+         "new": "            obj_copy.style.label = label\n            obj_copy.style._path = self.style._path\n"},
         {"name": "position_array_shared", "kind": "sub", "file": BG,
          "old": "        style_kwargs = {}\n        tree_kwargs = (",
          "new": "        obj_copy._position = self._position\n        style_kwargs = {}\n        tree_kwargs = ("},
@@ -268,7 +268,7 @@ MUTANTS = {
         {"name": "revert_fix_trace_objects_copied", "kind": "revert", "commit": "b241992"},
         {"name": "copy_shares_style_with_original", "kind": "sub", "file": BG,
          "old": "            obj_copy.style.label = label\n",
-         "new": "            obj_copy.style.label = label\n            obj_copy.style.path = self.style.path\n"},
+         "new": "            obj_copy.style.label = label\n            obj_copy.style._path = self.style._path\n"},
         {"name": "invalid_opacity_clamped_not_rejected", "kind": "sub", "file": ST, "count": 1,
          "old": "    @opacity.setter\n    def opacity(self, val):\n",
          "new": "    @opacity.setter\n    def opacity(self, val):\n        if isinstance(val, (int, float)) and val > 1:\n            val = 1\n"},
@@ -403,6 +403,21 @@ def cmd_determinism(args, home):
     return 2 if bad else 0
 
 
+def _merge_results(path, results, key, head, keep):
+    """results of a partial run replace the entries with the same key; entries of retired items are dropped"""
+    prev = {}
+    if os.path.exists(path):
+        try:
+            prev = {tuple(r.get(k) for k in key): r for r in json.load(open(path)).get("results", [])}
+        except Exception:
+            prev = {}
+    for r in results:
+        prev[tuple(r.get(k) for k in key)] = r
+    doc = dict(head)
+    doc["results"] = [r for _, r in sorted(prev.items(), key=lambda kv: tuple(str(x) for x in kv[0])) if keep(r)]
+    json.dump(doc, open(path, "w"), indent=1)
+
+
 def cmd_seeded(args, home):
     root = os.path.join(home, "seeded")
     ids = [a for a in args if not a.startswith("--")] or sorted(
@@ -434,9 +449,13 @@ def cmd_seeded(args, home):
             results.append({"seeded": sid, "property": prop, "status": status, "first_violation": viol[:1]})
             if status != "caught" and meta.get("expected", "caught") == "caught":
                 rc_all = 1
+            if meta.get("expected") == "quiet" and status != "missed":
+                rc_all = 1  # a retired (now harmless) change must not raise an alarm either
         finally:
             shutil.rmtree(base, ignore_errors=True)
-    json.dump({"results": results}, open(os.path.join(home, "evidence", "selftest_seeded.json"), "w"), indent=1)
+    _merge_results(os.path.join(home, "evidence", "selftest_seeded.json"), results, ("seeded",),
+                   {"what": "seeded changes from independent sub-agents: the quick check must report them"},
+                   keep=lambda r: os.path.isdir(os.path.join(root, r.get("seeded", ""))))
     return rc_all
 
 
@@ -475,8 +494,9 @@ def cmd_benign(args, home):
                     rc_all = 1
         finally:
             shutil.rmtree(base, ignore_errors=True)
-    json.dump({"what": "behaviour-preserving edits: the checks must stay quiet", "results": results},
-              open(os.path.join(home, "evidence", "selftest_benign.json"), "w"), indent=1)
+    _merge_results(os.path.join(home, "evidence", "selftest_benign.json"), results, ("edit", "property"),
+                   {"what": "behaviour-preserving edits: the checks must stay quiet"},
+                   keep=lambda r: os.path.exists(os.path.join(root, r.get("edit", "") + ".diff")))
     return rc_all
 
 
